@@ -297,7 +297,8 @@ let run_analyze (dump : string) (scan : string) (paths : string) (checks : strin
       let all = List.filter_map (fun (path, id) -> match Hashtbl.find_opt facts id with Some a -> Some (cs path, a) | None -> None) p.limports in
       Printf.printf "W %s %d\n" (hex_encode p.lid) (if x_wf_package p.lpkg then 1 else 0);
       (let (tot, ok) = x_ignore_hyp cfg p.lpkg in Printf.printf "H %d %d\n" (int_of_nat tot) (int_of_nat ok));
-      Printf.printf "L %s %d\n" (hex_encode p.lid) (if x_lines_ok cfg p.lpkg && x_pos_ok cfg p.lpkg then 1 else 0);
+      Printf.printf "L %s %d\n" (hex_encode p.lid) (if x_lines_ok cfg p.lpkg && x_pos_ok cfg p.lpkg && x_ranges_ok cfg p.lpkg then 1 else 0);
+      Printf.printf "T %s %d\n" (hex_encode p.lid) (if x_impl_inputs_ok p.lpkg then 1 else 0);
       match x_analyze cfg p.lpkg all with
       | APanic site -> Printf.printf "P %s %s\n" p.lid (hex_encode (string_of_chars site))
       | AOk (own, ds) ->
